@@ -159,6 +159,57 @@ type GQLRequest struct {
 	OperationName *string                `json:"operationName,omitempty"`
 }
 
+// UnmarshalJSON keeps integer literals float64 cannot hold (more than 15 digits) as json.Number, so that a case file
+// replays the request text it was written from; every other number becomes float64 as usual.
+func (r *GQLRequest) UnmarshalJSON(b []byte) error {
+	var p struct {
+		Query         string          `json:"query"`
+		Variables     json.RawMessage `json:"variables"`
+		OperationName *string         `json:"operationName"`
+	}
+	if err := json.Unmarshal(b, &p); err != nil {
+		return err
+	}
+	r.Query, r.OperationName, r.Variables = p.Query, p.OperationName, nil
+	if len(p.Variables) == 0 || string(p.Variables) == "null" {
+		return nil
+	}
+	dec := json.NewDecoder(bytes.NewReader(p.Variables))
+	dec.UseNumber()
+	var v map[string]interface{}
+	if err := dec.Decode(&v); err != nil {
+		return err
+	}
+	r.Variables, _ = plainNumbers(v).(map[string]interface{})
+	return nil
+}
+
+func plainNumbers(v interface{}) interface{} {
+	switch x := v.(type) {
+	case map[string]interface{}:
+		for k, vv := range x {
+			x[k] = plainNumbers(vv)
+		}
+		return x
+	case []interface{}:
+		for i, vv := range x {
+			x[i] = plainNumbers(vv)
+		}
+		return x
+	case json.Number:
+		s := strings.TrimPrefix(x.String(), "-")
+		if len(s) > 15 && !strings.ContainsAny(s, ".eE") {
+			return x
+		}
+		f, err := x.Float64()
+		if err != nil {
+			return x
+		}
+		return f
+	}
+	return v
+}
+
 func PostOp(gw *pebbles.Gateway, r GQLRequest, timeout time.Duration) *Response {
 	b, _ := json.Marshal(r)
 	return Post(gw, b, "application/json", timeout)
